@@ -11,6 +11,7 @@ import io
 import os
 import sys
 import warnings
+from pathlib import Path
 
 from harness.common import CACHE, REPO
 
@@ -59,8 +60,21 @@ def parse(src: str, mode: str = "exec", py_version=None, verbose: bool = False, 
     """Outcome of XonshParser.parse_string, canonical."""
     cls = parser_cls(variant)
     out = io.StringIO() if verbose else None
+    tmp = None
     try:
-        if verbose:
+        if mode == "file":
+            # the file entry point: the text written as UTF-8 to a scratch file (removed afterwards)
+            import tempfile
+
+            fd, tmp = tempfile.mkstemp(suffix=".xsh", prefix="xv_")
+            with os.fdopen(fd, "w", encoding="utf-8", newline="") as fh:
+                fh.write(src)
+            if verbose:
+                with contextlib.redirect_stdout(out):
+                    tree = cls.parse_file(Path(tmp), py_version=py_version, verbose=True)
+            else:
+                tree = cls.parse_file(Path(tmp), py_version=py_version)
+        elif verbose:
             with contextlib.redirect_stdout(out):
                 tree = cls.parse_string(src, mode=mode, py_version=py_version, verbose=True)
         else:
@@ -68,7 +82,16 @@ def parse(src: str, mode: str = "exec", py_version=None, verbose: bool = False, 
     except BaseException as e:  # noqa: BLE001
         if isinstance(e, (KeyboardInterrupt, SystemExit)):
             raise
-        return err_dict(e)
+        d = err_dict(e)
+        if tmp and d.get("filename") in (os.path.basename(tmp), tmp):
+            d["filename"] = "<scratch file>"  # the scratch name is not part of the outcome
+        return d
+    finally:
+        if tmp:
+            try:
+                os.unlink(tmp)
+            except OSError:
+                pass
     if tree is None:
         return {"k": "none"}
     if not isinstance(tree, ast.AST):
